@@ -43,7 +43,7 @@ PROPS = {
         "theorems": [],
     },
     "C02": {
-        "runs": runs([T("general", 500, Q), T("resize", 500), T("alt", 400)],
+        "runs": runs([T("general", 500, Q), T("resize", 500), T("alt", 500), T("save", 500), T("print", 300)],
                      [T("general", 20000, Q), T("resize", 15000), T("alt", 10000), T("scrollback", 5000), T("save", 3000)]),
         "cone": ALLP, "proj": ["size", "buf.geom", "buf.nlines", "other.geom", "other.nlines", "cursor", "dirty_len",
                                "out.lines", "panic.", "public"],
@@ -96,7 +96,8 @@ PROPS = {
         "cone": ["dump", "Q"], "proj": ["dump", "panic."],
     },
     "C12": {
-        "runs": runs([("chunk", "general", 600, []), ("chunk", "parser", 300, []), ("chunk", "alt", 300, [])],
+        "runs": runs([("chunk", "general", 600, []), ("chunk", "parser", 300, []), ("chunk", "alt", 400, []),
+                      ("chunk", "scroll", 900, []), ("chunk", "scrollback", 500, [])],
                      [("chunk", "general", 20000, []), ("chunk", "parser", 10000, []), ("chunk", "alt", 10000, []),
                       ("chunk", "scrollback", 10000, [])]),
         "cone": ["L"], "proj": ALLP,
